@@ -9,10 +9,13 @@ runs and the correspondence checks compare with furax (`Index.indexPositions` / 
   batch axes broadcasting against the leading axes of the data as `jnp.vectorize` does) are interpreted by the
   verified kernel `Toeplitz.toep` (FuraxModel/Toeplitz.lean, property C09), row by row along the last axis of
   every leaf, each batch row with its own band row (`toepLeaf`, `toepBandAt`);
-* leaf classes no reduction rule looks into (dense einsum blocks, observation matrices, opaque operators; and the
-  degenerate Toeplitz leaf whose band array has rank 0, which Python refuses) are interpreted by an environment
-  `E` of arbitrary homogeneous maps, keyed by the
-  Python identity;
+* `DenseBlockDiagonalOperator` leaves with ONE block array shared by all the leaves (`denseShared`: `Params.vals`
+  holds it) are interpreted by the executable einsum kernel `Einsum.einsum2` (FuraxModel/EinsumEval.lean, property
+  C14) applied to every leaf (`denseLeaf`); their transposes by the leaf `transposeOp` builds — rewritten subscripts,
+  swapped structures, the same block array (`dualParams`, `denseLeafT`);
+* leaf classes no reduction rule looks into (dense einsum blocks with one block array PER leaf, observation matrices,
+  opaque operators; and the degenerate Toeplitz leaf whose band array has rank 0, which Python refuses) are
+  interpreted by an environment `E` of arbitrary homogeneous maps, keyed by the Python identity;
 * `InverseOperator(o)` denotes the inverse of `den o` when one exists (exact solver, assumption A4), the zero map
   otherwise; `DiagonalInverseOperator(D)` is the diagonal operator of `where(d != 0, 1/d, 0)`.
 
@@ -26,6 +29,7 @@ import FuraxModel.Axes
 import FuraxModel.Diagonal
 import FuraxModel.Stokes
 import FuraxModel.Toeplitz
+import FuraxModel.EinsumEval
 import Mathlib.Analysis.SpecialFunctions.Trigonometric.Basic
 namespace Furax
 namespace ListSem
@@ -152,6 +156,33 @@ noncomputable def toepLeaf (K : Nat) (vals : Tensor Rat) (li _lo : LeafS) (x : V
   (List.range li.size).map fun q =>
     Toeplitz.toep (K - 1) l (toepBandAt K vals li.shape (q / l)) (rowOf l x (q / l)) (q % l)
 
+/-! ### the dense einsum kernel: one block array shared by all the leaves -/
+
+/-- `jnp.einsum(subs, blocks, leaf)` on one flat leaf of shape `li.shape` (`[]` when einsum refuses) -/
+noncomputable def denseKernel (subs : String) (vals : Tensor Rat) (li _lo : LeafS) (x : V) : V :=
+  exData (Einsum.einsum2 subs (castT vals) ⟨li.shape, fit li.size x⟩)
+
+/-- **`DenseBlockDiagonalOperator.mv`** with one block array shared by all leaves: leaf `k` of `p.inS` ↦ leaf `k` of
+`p.outS` -/
+noncomputable def denseLeaf (p : Params) : V → V :=
+  perLeaf (denseKernel p.str p.vals) p.inS.leaves p.outS.leaves
+
+/-- the parameters of the dense leaf that `transposeOp` builds (FuraxModel/Dual.lean) -/
+def dualParams (p : Params) : Except PyErr Params :=
+  match Einsum.transposedSubscripts p.str with
+  | .ok s => .ok { p with inS := p.outS, outS := p.inS, str := s }
+  | .error e => .error e
+
+/-- **`DenseBlockDiagonalOperator.T.mv`**: `mv` of the leaf `transposeOp` builds -/
+noncomputable def denseLeafT (p : Params) : V → V :=
+  match dualParams p with
+  | .ok p' => denseLeaf p'
+  | .error _ => fun _ => []
+
+/-- the block array is ONE array shared by all the leaves (`Params.vals` holds it; it is left empty when there is one
+block array per leaf) -/
+def denseShared (p : Params) : Bool := !p.vals.data.isEmpty
+
 /-! ### the environment of uninterpreted leaves -/
 
 /-- maps for the leaf classes no rule inspects, and their transposes; homogeneous -/
@@ -190,7 +221,8 @@ noncomputable def leafDen (E : Env) (u : Nat) (c : LeafCls) (p : Params) (x : V)
       match toepK p.vals with
       | some K => perLeaf (toepLeaf K p.vals) s.leaves t.leaves xi
       | none => E.f u xi
-    | .dense | .obsMatrix | .opaque => E.f u xi
+    | .dense => if denseShared p then denseLeaf p xi else E.f u xi
+    | .obsMatrix | .opaque => E.f u xi
 
 /-- `mv` of the transpose of a leaf operator (input on the leaf's output structure) -/
 noncomputable def leafDenT (E : Env) (u : Nat) (c : LeafCls) (p : Params) (y : V) : V :=
@@ -221,7 +253,8 @@ noncomputable def leafDenT (E : Env) (u : Nat) (c : LeafCls) (p : Params) (y : V
       match toepK p.vals with
       | some K => perLeaf (toepLeaf K p.vals) s.leaves t.leaves yi
       | none => E.fT u yi
-    | .dense | .obsMatrix | .opaque => E.fT u yi
+    | .dense => if denseShared p then denseLeafT p yi else E.fT u yi
+    | .obsMatrix | .opaque => E.fT u yi
 
 /-! ### lazy inverses -/
 
